@@ -46,9 +46,9 @@ CHECKS = {
             'Every generated set is rendered by both backends from the same tree; the Python must compile, execute, '
             'export every symbol of the model under the module name, agree with the JSON document on OID / kind / '
             'base type / access, export everything other generated modules import, and load together in pysnmp '
-            'with getName() == model OID.',
+            'with getName() == model OID; one compile() call for the set must look up every module its outputs import from.',
             'Recording builder stands in for pysnmp in facets 1-4; pysnmp 7.1 is trusted for facet 5. Classes of '
-            'open findings D16 D17 D18 D30 D35 D36 are excluded by construction and probed on every run.', '4/C04'),
+            'open findings (known_findings.json) are excluded by construction and probed on every run.', '4/C04'),
     'C06': ('exploration',
             'Hypothesis model-based tables / lists / compliance statements; reference-model oracle on JSON members '
             'and on calls captured by the recording builder',
@@ -90,7 +90,9 @@ CHECKS = {
             'good, lexical/syntax/truncated/semantic defect, empty), generator and writer failures and all options; '
             'every run must return a mapping with one of six statuses for the whole closure, write each module at '
             'most once, report compiled/borrowed exactly when the writer accepted the text, hand the generator\'s '
-            'text over unchanged and attach the causing error; healing one bad module must not change unrelated ones.',
+            'text over unchanged and attach the causing error; healing one bad module must not change unrelated ones. '
+            'A quarter of the scenarios makes earlier compile() calls on the same compiler first; a small scope of '
+            '900 000 scenarios (two user modules, two sources) is enumerated completely in the thorough tier, every 61st in the quick tier.',
             'Doubles signal failures only through PySmiError subclasses; the closure/supplier model in vlib/orch.py '
             'is the trusted base.', '4/C07'),
     'C08': ('exploration',
@@ -98,27 +100,32 @@ CHECKS = {
             'invariants + call budget for termination',
             'Result keys must cover the model\'s import closure; each (source, name) is asked at most once, sources in '
             'the order added and none after the first usable copy, whose (source-marked) text is what gets parsed; a '
-            'budget of 400 calls per module turns non-termination into a violation.',
+            'budget of 400 calls per module turns non-termination into a violation. The 75 000 small-scope scenarios of '
+            'this domain are enumerated completely in the thorough tier (every 7th in quick).',
             'Termination is bounded-call, not a proof; "first source" = first usable text.', '4/C08'),
     'C09': ('exploration',
             'Hypothesis failure placements on the orchestration harness; all-or-nothing invariant over the call log',
             'For every generated placement of find/parse/generate failures (with and without borrowers, ignoreErrors '
             'on/off) the writer must receive nothing and built modules must be unprocessed when a failure remains, '
-            'and receive every built module exactly once when errors are ignored.',
+            'and receive every built module exactly once when errors are ignored; also after earlier compile() calls on '
+            'the same object, and over the complete small scope (thorough; every 31st scenario in quick).',
             'Writer failures are outside the failure set, as in the statement.', '4/C09'),
     'C10': ('exploration',
             'Hypothesis searcher lists on the orchestration harness (protocol invariants) + exhaustive enumeration of '
-            'real file searchers over an mtime/decoy lattice on a temp directory',
+            'real file searchers (directory, package, zipped package) over an mtime/decoy/name lattice on a temp directory '
+            '+ Hypothesis sub-second file times handed from a real FileReader to a real searcher',
             'A: order, rebuild flag, stop at first fresh, fresh => untouched and never generated, noDeps semantics, '
-            'stub lists immune to rebuild. B: 448 combinations of searcher kind x destination mtime around equality x '
-            'decoys x rebuild, enumerated completely against a reference predicate.',
-            'B trusts os.utime/os.stat on the sandbox filesystem; .pyc headers are finding D23.', '4/C10'),
+            'stub lists immune to rebuild. B: ~1200 combinations of searcher kind x module name (incl. mixed case) x '
+            'destination mtime around equality x decoys x rebuild, enumerated completely against a reference predicate. '
+            'C: up to date iff the copy is not older than the source at full precision (either answer within one second).',
+            'B/C trust os.utime/os.stat (ns) on the sandbox filesystem and zipimport for the zipped package.', '4/C10'),
     'C19': ('exploration',
             'Hypothesis borrower lists x failure placements on the orchestration harness (real AnyFileBorrower over '
             'scripted readers) + real borrowers over generated directories',
             'Borrowers must be consulted only for failed modules, in order, with the request flavour, never past the '
             'first that returns; the borrowed text must be written verbatim with status borrowed; noDeps keeps '
-            'requested modules eligible; real borrowers only return files with a listed extension.',
+            'requested modules eligible; real borrowers only return files with a listed extension. Warm-up compile() calls '
+            'and the complete small scope as for C07.',
             'Model of "failed" = no usable source or generator raised.', '4/C19'),
     'C18': ('exploration',
             'Hypothesis histories of incremental index builds over colliding OID sets; validity-predicate oracle '
@@ -133,20 +140,20 @@ CHECKS = {
             'os/tempfile/py_compile proxies; Hypothesis-drawn interleavings of two writers under a harness scheduler',
             'For every configuration the call sites of putData() are recorded, then every site is failed once with '
             'every fault kind (errno errors before the effect, close failing after closing, short writes of 0/1/half/'
-            'len-1 bytes, PyCompileError/SyntaxError/OSError from py_compile); after each faulted call the destination '
+            'len-1 bytes, the same error persisting over retries, PyCompileError/SyntaxError/OSError from py_compile); after each faulted call the destination '
             'must hold its previous or the complete new content, no temporary file may remain, only PySmiWriterError '
             'may escape, a normal return implies full content on disk; dry-run and writeMibs=False leave the '
             'directory snapshot unchanged. Two concurrent writers are stepped site by site.',
-            'One fault per call, injected at the granularity of the Python-level os/tempfile/py_compile calls the '
+            'One faulty step per call (failing once or on every retry), injected at the granularity of the Python-level os/tempfile/py_compile calls the '
             'writers make; schedules are sampled and owned by the harness (no kernel-level preemption).', '4/C13'),
     'C14': ('exploration',
-            'Hypothesis directory trees / nested ZIP archives / stubbed HTTP servers x names x matching options against '
+            'Hypothesis directory trees / nested ZIP archives (also trees of same-named inner archives, several requests on one reader; pairs of live directory readers) / stubbed HTTP servers x names x matching options against '
             'an independent reference of the documented name variants; complete enumeration of a URL dispatch table',
             'Generated trees and archives (sub-directories, duplicate basenames, archives nested to depth 3, invalid '
             'UTF-8) are served through FileReader / ZipReader / HttpReader(stub urlopen) / CallbackReader; a returned '
             'file must be an allowed variant of the request with exactly its decoded bytes and mtime, not-found is '
             'only valid when no required variant exists, the .index mapping wins; 62 URL shapes map to the reader '
-            'kind and parameters their scheme and extension denote.',
+            'kind and parameters their scheme and extension denote, alone and in lists of 2-4 URLs per call.',
             'The variant reference (required / allowed sets) is my reading of the statement; any matching file is '
             'accepted when several exist; no network: FTP only by dispatch, HTTP through a stub.', '4/C14'),
     'C12': ('exploration',
@@ -154,8 +161,10 @@ CHECKS = {
             'differential oracle against fresh instances; cross-process digest comparison over PYTHONHASHSEED values',
             'Each history feeds valid and invalid MIBs (truncations inside MACRO bodies, comments, quoted strings; '
             'token mutants), code generations, repeated generations and compile() calls to the same objects; every '
-            'step must equal what brand-new objects produce (tree, error class and line, text, MibInfo, statuses). '
-            'A generated corpus is compiled under 5 (thorough 24) hash seeds in child interpreters and all SHA-256 '
+            'step must equal what brand-new objects produce (tree, error class and line, text, MibInfo, statuses); later '
+            'steps present other editions of modules already seen (same module, type and object names, other content), '
+            'modules that were absent before, other templates and text filters. '
+            'A generated corpus (half of it type-heavy with shuffled forward references) is compiled under 8 (thorough 24) hash seeds in child interpreters and all SHA-256 '
             'digests of trees, JSON and pysnmp texts and module summaries must agree.',
             'Fresh instances are the reference; "all hash seeds" is sampled.', '4/C12'),
     'C20': ('exploration',
